@@ -59,16 +59,14 @@ theorem place_head (fs : List Frame) (roots : List Tree) (d : Dir) (c : Ctx)
   | case1 roots d hr =>
     cases h; exact ⟨[], rfl, fun _ => NoExp.nil⟩
   | case2 roots d hr => cases h
-  | case3 => cases h
-  | case4 f below roots d _ _ hne =>
-    cases h; exact ⟨[], rfl, fun _ => NoExp.nil⟩
-  | case5 f below roots d _ _ =>
+  | case3 f below roots d _ =>
     cases h; exact ⟨f :: below, rfl, fun hn => hn⟩
-  | case6 => cases h
-  | case7 f roots d _ _ ih =>
+  | case4 => cases h
+  | case5 => cases h
+  | case6 f roots d _ _ ih =>
     rcases ih h with ⟨below, hb, hn⟩
     exact ⟨below, hb, fun _ => hn NoExp.nil⟩
-  | case8 f roots d _ _ p rest ih =>
+  | case7 f roots d _ _ p rest ih =>
     rcases ih h with ⟨below, hb, hn⟩
     refine ⟨below, hb, fun hne => hn ?_⟩
     exact NoExp.cons (by simpa using hne.tail.head) hne.tail.tail
@@ -83,22 +81,19 @@ theorem place_inv {D : Dir} (hD : D.explicit = true) (above : List Frame) (kids 
   fun_induction place fs roots d generalizing above kids with
   | case1 => simp at hfs
   | case2 => simp at hfs
-  | case3 => cases h
-  | case4 f below roots d _ _ hne =>
-    rw [← hfs, anyExplicit_mid above _ rest hD] at hne
-    exact absurd rfl hne
-  | case5 f below roots d _ _ =>
+  | case3 f below roots d _ =>
     cases h
     exact ⟨rfl, above, kids, hn, by rw [hfs]⟩
-  | case6 => cases h
-  | case7 f roots d _ hne ih =>
+  | case4 => cases h
+  | case5 => cases h
+  | case6 f roots d _ hne ih =>
     cases above with
     | nil =>
       simp at hfs
       rw [← hfs.1] at hne
       exact absurd hD hne
     | cons a as => simp at hfs
-  | case8 f roots d _ hne p rest' ih =>
+  | case7 f roots d _ hne p rest' ih =>
     cases above with
     | nil =>
       simp at hfs
